@@ -415,8 +415,8 @@ def conformable(s):
         op = st.get("op")
         if op not in CONF_OPS:
             return False
-        if need and op not in ("Reopen", "Adv"):
-            return False
+        if need and op in ("Reset", "ExtRename", "ExtRemove"):
+            return False        # (the model's environment renames/removes the current file once per reopen)
         if op == "Log":
             if st.get("msg") is not None or st.get("target") is not None or st.get("lvl") or st.get("nomod"):
                 return False
@@ -426,7 +426,10 @@ def conformable(s):
                 return False
             live, wrote = True, False
         elif op == "Stop":
-            live = wrote = False
+            live = wrote = need = False
+        elif op == "Trigger":
+            if c.get("rot", True) and wrote:
+                need = False    # a rotation opens a file at a family path again
         elif op == "ExtRemove":
             if live and not (st.get("which", "cur") == "cur" and wrote):
                 return False
